@@ -218,7 +218,9 @@ func (mi *MessageInfo) unmarshalPointerLazy(b []byte, p pointer, groupTag protow
 	presence = p.Apply(mi.presenceOffset).PresenceInfo()
 	lazy = p.Apply(mi.lazyOffset).LazyInfoPtr()
 	if !presence.AnyPresent(mi.presenceSize) {
-		if opts.CanBeLazy() {
+		// A group has no length prefix: b extends to the end of the enclosing
+		// message, so it cannot serve as the buffer retained for this message.
+		if opts.CanBeLazy() && groupTag == 0 {
 			// If the message contains existing data, we need to merge into it.
 			// Lazy unmarshaling doesn't merge, so only enable it when the
 			// message is empty (has no presence bitmap).
